@@ -444,7 +444,7 @@ impl Assembler {
                 }
             }
         }
-        if self.symbols.assembler!=MerlinVersion::Merlin8 {
+        if self.symbols.assembler!=MerlinVersion::Merlin8 || self.symbols.processor==ProcessorType::_65802 {
             if suffix.len() > 0 && (suffix == "l" || suffix == "L") {
                 end = 3;
             }
